@@ -101,6 +101,16 @@ def gen(rng, n, tier):
         collinear = rng.random() < 0.08
         ntr = rng.choice([1, 1, 1, 2])
         tracks = [[rand_obs(rng, edges, radius, collinear) for _ in range(rng.randint(1, 5))] for _ in range(ntr)]
+        if rng.random() < 0.3:
+            # a receiver creeping away from a road by hundredths of a millimetre per fix, across the search radius: every fix is matched, or flagged, for itself
+            e = rng.choice(edges); k = rng.randrange(len(e['geom']) - 1)
+            (x1, y1), (x2, y2) = e['geom'][k], e['geom'][k + 1]
+            L = math.hypot(x2 - x1, y2 - y1)
+            if L > 0 and x1 != x2:
+                t = rng.uniform(0.3, 0.7); sgn = rng.choice([-1, 1])
+                nxv, nyv = -(y2 - y1) / L * sgn, (x2 - x1) / L * sgn
+                px, py = x1 + t * (x2 - x1), y1 + t * (y2 - y1)
+                tracks[-1] = tracks[-1] + [[px + (radius + d) * nxv, py + (radius + d) * nyv] for d in (-3e-5, 3e-5, 9e-5, 1.5e-4)]
         if not collinear:                                           # no observation exactly on a vertical supporting line
             xs = {g[0][0] for e in edges for g in [e['geom']] for a, b in zip(g, g[1:]) if a[0] == b[0]}
             xs |= {a[0] for e in edges for a, b in zip(e['geom'], e['geom'][1:]) if a[0] == b[0]}
